@@ -1,2 +1,3 @@
 pub mod bigint;
 pub mod pyslice;
+pub mod json;
